@@ -1,6 +1,7 @@
 import TRV.Proofs.Probe
 import TRV.Proofs.EngineLTS
 import TRV.Model.Drivers
+import TRV.Proofs.Pacing
 /-!
 # C06 — Probe emission: well-formed, right TTL, constant flow, unique ids, ordered, stops
 
@@ -16,8 +17,14 @@ import TRV.Model.Drivers
   interleaving model of the parallel engine the probes emitted so far are exactly
   `min, min+1, …` (increasing, no repetition) and at most one probe is emitted after the receiver
   has seen a destination reply.
-Pacing (≥ the configured delay between consecutive probes) is a timing statement: it is checked on
-the real engines under the virtual clock by `TestC06` and bounded in the timed model of C05/C08.
+* `c06_paced_parallel`, `c06_paced_serial`, `c06_paced_pairwise`: pacing.  In the timed models of both
+  engines (`TRV.Timed.parallelT` / `serialT`: `SendProbe` for TTL `i` lasts `sd i`, any script of
+  `ReceiveProbe` outcomes and durations, any cancellation instant, send failures) the emissions are
+  `(min, t₀), (min+1, t₁), …` with `tⱼ + SendDelay ≤ tⱼ₊₁` — measured between the instants at which
+  consecutive `SendProbe` calls START, so a slow send never shortens the next gap — and any two
+  emissions `k` TTLs apart are at least `k · SendDelay` apart.  The timed models are tied to the real
+  engines on the virtual clock by the send-time comparison of C05/C08 (`TestC05`/`TestC08`, scripted
+  send durations included) and the spacing is measured again on the real engines by `TestC06`.
 -/
 namespace TRV.Props.C06
 open TRV TRV.Build TRV.Spec TRV.Proofs TRV.LTS TRV.Drv
@@ -126,6 +133,36 @@ theorem c06_one_per_ttl {minT maxT : Nat} {s : St} (hv : minT ≤ maxT) (h : Rea
 theorem c06_stop_after_dest {minT maxT : Nat} {s : St} (h : Reach minT maxT s) : s.sendsAfterCancel ≤ 1 :=
   (sends_after_cancel h).1
 
+/-- pacing, parallel engine: TTLs go up by one from the first TTL and consecutive `SendProbe` calls
+    start at least `SendDelay` apart, for every script, send duration, failure and cancellation -/
+theorem c06_paced_parallel (c : Timed.Cfg) (cancel : Option Nat) (sd : Nat → Nat) (sfail : Nat → Bool)
+    (start : Nat) (script : List Timed.RCall) :
+    Paced c.delay (Timed.parallelT c cancel sd sfail start script).sends ∧
+    ∀ a ∈ (Timed.parallelT c cancel sd sfail start script).sends.head?, a.1 = c.min ∧ start ≤ a.2 :=
+  parallelT_paced c cancel sd sfail start script
+
+/-- pacing, serial engine -/
+theorem c06_paced_serial (c : Timed.Cfg) (cancel : Option Nat) (sd : Nat → Nat) (sfail : Nat → Bool)
+    (start : Nat) (script : List Timed.RCall) :
+    Paced c.delay (Timed.serialT c cancel sd sfail start script).sends ∧
+    ∀ a ∈ (Timed.serialT c cancel sd sfail start script).sends.head?, a.1 = c.min ∧ start ≤ a.2 :=
+  serialT_paced c cancel sd sfail start script
+
+/-- pairwise form of `Paced`: emissions `k` positions apart are `k` TTLs and ≥ `k · d` apart -/
+theorem c06_paced_pairwise {d : Nat} (l : List (Nat × Nat)) (j k : Nat) (a b : Nat × Nat)
+    (hp : Paced d l) (ha : l[j]? = some a) (hb : l[j + k]? = some b) : b.1 = a.1 + k ∧ a.2 + k * d ≤ b.2 :=
+  paced_get l j k a b hp ha hb
+
+/-- non-vacuity: a 4-hop parallel run with a slow second send (7 ms against a 5 ms delay) emits
+    four probes, the gap after the slow one is NOT shortened -/
+example :
+    (Timed.parallelT { min := 1, max := 4, timeout := 100, delay := 5, poll := 1 } none
+        (fun i => if i = 2 then 7 else 0) (fun _ => false) 0 []).sends = [(1, 0), (2, 5), (3, 17), (4, 22)] := by
+  decide +kernel
+
+#print axioms c06_paced_parallel
+#print axioms c06_paced_serial
+#print axioms c06_paced_pairwise
 #print axioms c06_icmp4_wf
 #print axioms c06_icmp6_wf
 #print axioms c06_udp4_wf
